@@ -117,8 +117,8 @@ def run_case(ctx, tool, params, files, damage, extra=()):
     er = 256
     if '--enable_erasures' in extra:
         er = int(opt(list(extra), '--erasure_symbol', 0))
-    line = 'toolrun %d 3 %d %d %d %d %d %d %d %d %d %d %s %s %s %s %s %s %s %s %s %s %s' % (
-        0 if tool == 'header' else 1, mb, hdr, ms, ik, mb - ik, hlen, 0 if '--no_fast_check' in extra else 1,
+    line = 'toolrun %d %d %d %d %d %d %d %d %d %d %d %d %s %s %s %s %s %s %s %s %s %s %s' % (
+        0 if tool == 'header' else 1, int(opt(params, '--ecc_algo', 3)), mb, hdr, ms, ik, mb - ik, hlen, 0 if '--no_fast_check' in extra else 1,
         1 if '--ignore_size' in extra else 0, WINDOW, er, hx(db), hxl(tpairs), hxl(htab), ints(dk), hxl(dm), hxl(dp), ints(df), hxl(drm), hxl(drp),
         ints(musz), ';'.join(','.join(str(x) for x in t) or '1' for t in mutb) or '.')
     ans = ctx.model.run([line])[0]
@@ -170,6 +170,14 @@ def scenarios(rng, tier):
                     if tier == 'quick' and (pi + len(kind)) % 2 and kind not in ('none', 'light', 'heavy'):
                         continue
                     out.append({'tool': tool, 'params': params, 'files': {k: v.hex() for k, v in files.items()}, 'kind': kind, 'dseed': seed})
+            # codecs 1 and 2 (same GF table family as codec 3, so the same process; codec 4 is covered by the pipe-based streams, which
+            # run it in its own process)
+            for algo in (1, 2):
+                files = {'a.bin': rb(333), 'sub/b.txt': rb(90), 'e': b''}
+                seed = rng.randrange(1 << 30)
+                for kind in ('none', 'light', 'heavy', 'track'):
+                    out.append({'tool': tool, 'params': psets[tool][0] + ['--ecc_algo', str(algo)], 'files': {k: v.hex() for k, v in files.items()},
+                                'kind': kind, 'dseed': seed})
     return out
 
 
